@@ -153,7 +153,7 @@ Q q_set_front_back()
 
 // clear / erase / push_back / pop_back
 Q q_clear() { Pre s = mk(); k_clear(s.o); inv(s.o); same(s.o, s.p, 0); vf_assert(k_empty(s.o), "empty() after clear()"); }
-Q q_erase_pc() { Pre s = mk(); sz pos = nd_idx(), c = vf_nd_u64(); vf_assume(pos <= N_); CHK_KNOWN(C04_erase_all_contract, pos == 0 && c >= N_); RET(k_erase_pc(s.o, pos, c), s.o); post(s.o, m_erase<CH, CAP>(s.p, N_, pos, c)); }
+Q q_erase_pc() { Pre s = mk(); sz pos = nd_idx(), c = vf_nd_u64(); vf_assume(pos <= N_); CHK_KNOWN(C04_erase_all_contract, pos == 0 && c >= N_); if (N_ > 0 && pos < N_ && c > 0 && !(pos == 0 && c >= N_)) vf_witness("erase(pos,count) removes a proper part"); RET(k_erase_pc(s.o, pos, c), s.o); post(s.o, m_erase<CH, CAP>(s.p, N_, pos, c)); }
 Q q_erase_p() { Pre s = mk(); sz pos = nd_idx(); vf_assume(pos <= N_); CHK_KNOWN(C04_erase_all_contract, pos == 0); RET(k_erase_p(s.o, pos), s.o); post(s.o, m_erase<CH, CAP>(s.p, N_, pos, npos)); }
 Q q_erase_0() { Pre s = mk(); CHK_KNOWN(C04_erase_all_contract, true); RET(k_erase_0(s.o), s.o); post(s.o, m_erase<CH, CAP>(s.p, N_, 0, npos)); }
 Q q_erase_it() { Pre s = mk(); sz pos = nd_idx(); vf_assume(pos < N_); CHK_KNOWN(C04_erase_all_contract, N_ == 1); vf_assert(k_erase_it(s.o, pos) == pos, "erase(it) returns the position of the erased character"); post(s.o, m_erase<CH, CAP>(s.p, N_, pos, 1)); }
@@ -164,7 +164,7 @@ Q q_pop_back() { Pre s = mk(); k_pop_back(s.o); post(s.o, m_erase<CH, CAP>(s.p, 
 // append / operator+= : when the result does not fit only the two invariants are required (post())
 Q q_append_nc() { Pre s = mk(); sz c = vf_nd_u64(); CH ch = nd_ch(); RET(k_append_nc(s.o, c, ch), s.o); post(s.o, m_append_fill<CH, CAP>(s.p, N_, c, ch)); }
 Q q_append_cs() { Pre s = mk(); CH* q = symz(M_); RET(k_append_cs(s.o, q), s.o); post(s.o, m_append<CH, CAP>(s.p, N_, q, M_)); }
-Q q_append_pc() { Pre s = mk(); CH* q = sym(M_); sz c = vf_nd_u64(); vf_assume(c <= M_); RET(k_append_pc(s.o, q, c), s.o); post(s.o, m_append<CH, CAP>(s.p, N_, q, c)); }
+Q q_append_pc() { Pre s = mk(); CH* q = sym(M_); sz c = vf_nd_u64(); vf_assume(c <= M_); if (N_ < CAP && M_ > 0 && c > 0 && c <= CAP - N_) vf_witness("append(ptr,count) appends and fits"); if (M_ > CAP - N_ && c > CAP - N_) vf_witness("append(ptr,count) has to clamp"); RET(k_append_pc(s.o, q, c), s.o); post(s.o, m_append<CH, CAP>(s.p, N_, q, c)); }
 Q q_append_it() { Pre s = mk(); CH* q = sym(M_); RET(k_append_it(s.o, q, q + M_), s.o); post(s.o, m_append<CH, CAP>(s.p, N_, q, M_)); }
 Q q_append_s() { Pre s = mk(); Pre t = mk_other(); RET(k_append_s(s.o, t.o), s.o); post(s.o, m_append<CH, CAP>(s.p, N_, t.p, M_)); keep(t, M_); }
 Q q_append_spc() { Pre s = mk(); Pre t = mk_other(); sz pos = vf_nd_u64(), c = vf_nd_u64(); vf_assume(pos <= M_); RET(k_append_spc(s.o, t.o, pos, c), s.o); post(s.o, m_append<CH, CAP>(s.p, N_, t.p + pos, mn(c, M_ - pos))); keep(t, M_); }
@@ -181,7 +181,7 @@ Q q_pluseq_v() { Pre s = mk(); CH* q = sym(M_); RET(k_pluseq_v(s.o, q, M_), s.o)
 // insert (index <= size(): std throws otherwise). insert(index,count,ch) loops count times in tetl: count restricted to results that fit.
 Q q_insert_nc() { Pre s = mk(); sz idx = nd_idx(), c = vf_nd_u64(); CH ch = nd_ch(); vf_assume(idx <= N_ && c <= CAP - N_); RET(k_insert_nc(s.o, idx, c, ch), s.o); post(s.o, m_insert_fill<CH, CAP>(s.p, N_, idx, c, ch)); }
 Q q_insert_cs() { Pre s = mk(); CH* q = symz(M_); sz idx = nd_idx(); vf_assume(idx <= N_); RET(k_insert_cs(s.o, idx, q), s.o); post(s.o, m_insert<CH, CAP>(s.p, N_, idx, q, M_)); }
-Q q_insert_pc() { Pre s = mk(); CH* q = sym(M_); sz idx = nd_idx(), c = vf_nd_u64(); vf_assume(idx <= N_ && c <= M_); RET(k_insert_pc(s.o, idx, q, c), s.o); post(s.o, m_insert<CH, CAP>(s.p, N_, idx, q, c)); }
+Q q_insert_pc() { Pre s = mk(); CH* q = sym(M_); sz idx = nd_idx(), c = vf_nd_u64(); vf_assume(idx <= N_ && c <= M_); if (N_ > 0 && N_ < CAP && M_ > 0 && idx < N_ && c > 0 && c <= CAP - N_) vf_witness("insert(index,ptr,count) in the middle, fits"); RET(k_insert_pc(s.o, idx, q, c), s.o); post(s.o, m_insert<CH, CAP>(s.p, N_, idx, q, c)); }
 Q q_insert_s() { Pre s = mk(); Pre t = mk_other(); sz idx = nd_idx(); vf_assume(idx <= N_); RET(k_insert_s(s.o, idx, t.o), s.o); post(s.o, m_insert<CH, CAP>(s.p, N_, idx, t.p, M_)); keep(t, M_); }
 Q q_insert_spc() { Pre s = mk(); Pre t = mk_other(); sz idx = nd_idx(), pos = vf_nd_u64(), c = vf_nd_u64(); vf_assume(idx <= N_ && pos <= M_); RET(k_insert_spc(s.o, idx, t.o, pos, c), s.o); post(s.o, m_insert<CH, CAP>(s.p, N_, idx, t.p + pos, mn(c, M_ - pos))); keep(t, M_); }
 Q q_insert_sp() { Pre s = mk(); Pre t = mk_other(); sz idx = nd_idx(), pos = vf_nd_u64(); vf_assume(idx <= N_ && pos <= M_); RET(k_insert_sp(s.o, idx, t.o, pos), s.o); post(s.o, m_insert<CH, CAP>(s.p, N_, idx, t.p + pos, M_ - pos)); keep(t, M_); }
@@ -195,7 +195,7 @@ Q q_insert_self() { Pre s = mk(); sz idx = nd_idx(); vf_assume(idx <= N_); RET(k
 Q q_cmp_s() { Pre s = mk(); Pre t = mk_other(); vf_assert(sgn(k_cmp_s(s.o, t.o)) == sgn(HS.compare(SV(t.p, M_))), "compare(str) sign == std"); keep(s, N_); keep(t, M_); }
 Q q_cmp_s2() { Pre s = mk(); Pre t = mk2(); vf_assert(sgn(k_cmp_s2(s.o, t.o)) == sgn(HS.compare(SV(t.p, M_))), "compare(str<other capacity>) sign == std"); keep(s, N_); }
 Q q_cmp_pcs() { Pre s = mk(); Pre t = mk_other(); sz p1 = vf_nd_u64(), c1 = vf_nd_u64(); vf_assume(p1 <= N_); vf_assert(sgn(k_cmp_pcs(s.o, p1, c1, t.o)) == sgn(HS.compare(p1, c1, SV(t.p, M_))), "compare(pos,count,str) sign == std"); keep(s, N_); }
-Q q_cmp_pcspc() { Pre s = mk(); Pre t = mk_other(); sz p1 = vf_nd_u64(), c1 = vf_nd_u64(), p2 = vf_nd_u64(), c2 = vf_nd_u64(); vf_assume(p1 <= N_ && p2 <= M_); VF_KNOWN(C04_compare_substr_uses_own_size, c2 > M_ - p2 && N_ < M_ - p2); vf_assert(sgn(k_cmp_pcspc(s.o, p1, c1, t.o, p2, c2)) == sgn(HS.compare(p1, c1, SV(t.p, M_), p2, c2)), "compare(pos1,count1,str,pos2,count2) sign == std"); keep(s, N_); }
+Q q_cmp_pcspc() { Pre s = mk(); Pre t = mk_other(); sz p1 = vf_nd_u64(), c1 = vf_nd_u64(), p2 = vf_nd_u64(), c2 = vf_nd_u64(); vf_assume(p1 <= N_ && p2 <= M_); VF_KNOWN(C04_compare_substr_uses_own_size, c2 > M_ - p2 && N_ < M_ - p2); if (N_ > 0 && M_ > 0 && p1 < N_ && c1 > 0 && p2 < M_ && c2 > 0 && c2 <= M_ - p2) vf_witness("compare of two non-empty sub-ranges"); vf_assert(sgn(k_cmp_pcspc(s.o, p1, c1, t.o, p2, c2)) == sgn(HS.compare(p1, c1, SV(t.p, M_), p2, c2)), "compare(pos1,count1,str,pos2,count2) sign == std"); keep(s, N_); }
 Q q_cmp_pcsp() { Pre s = mk(); Pre t = mk_other(); sz p1 = vf_nd_u64(), c1 = vf_nd_u64(), p2 = vf_nd_u64(); vf_assume(p1 <= N_ && p2 <= M_); VF_KNOWN(C04_compare_substr_uses_own_size, N_ < M_ - p2); vf_assert(sgn(k_cmp_pcsp(s.o, p1, c1, t.o, p2)) == sgn(HS.compare(p1, c1, SV(t.p, M_), p2, npos)), "compare(pos1,count1,str,pos2) sign == std"); keep(s, N_); }
 Q q_cmp_cs() { Pre s = mk(); CH* q = symz(M_); vf_assert(sgn(k_cmp_cs(s.o, q)) == sgn(HS.compare(q)), "compare(cstr) sign == std"); keep(s, N_); }
 Q q_cmp_pccs() { Pre s = mk(); CH* q = symz(M_); sz p1 = vf_nd_u64(), c1 = vf_nd_u64(); vf_assume(p1 <= N_); vf_assert(sgn(k_cmp_pccs(s.o, p1, c1, q)) == sgn(HS.compare(p1, c1, q)), "compare(pos,count,cstr) sign == std"); keep(s, N_); }
@@ -230,7 +230,7 @@ Q q_repl_itcs() { Pre s = mk(); CH* q = symz(M_); sz f = vf_nd_u64(), l = vf_nd_
 Q q_repl_itnc() { Pre s = mk(); sz f = vf_nd_u64(), l = vf_nd_u64(), c2 = vf_nd_u64(); CH ch = nd_ch(); vf_assume(f <= l && l <= N_); VF_KNOWN(C04_replace_keeps_size, l - f != c2); RET(k_repl_itnc(s.o, f, l, c2, ch), s.o); post(s.o, m_replace_fill<CH, CAP>(s.p, N_, f, l - f, c2, ch)); }
 
 // substr / copy / resize / swap
-Q q_substr() { Pre s = mk(); sz pos = vf_nd_u64(), c = vf_nd_u64(); vf_assume(pos <= N_); void* r = raw(); k_substr(r, s.o, pos, c); inv(r); same(r, s.p + pos, mn(c, N_ - pos)); keep(s, N_); }
+Q q_substr() { Pre s = mk(); sz pos = vf_nd_u64(), c = vf_nd_u64(); vf_assume(pos <= N_); if (N_ > 1 && pos > 0 && pos < N_ && c > 0 && c < N_ - pos) vf_witness("substr of an inner range"); void* r = raw(); k_substr(r, s.o, pos, c); inv(r); same(r, s.p + pos, mn(c, N_ - pos)); keep(s, N_); }
 Q q_substr_p() { Pre s = mk(); sz pos = vf_nd_u64(); vf_assume(pos <= N_); void* r = raw(); k_substr_p(r, s.o, pos); inv(r); same(r, s.p + pos, N_ - pos); keep(s, N_); }
 Q q_substr_0() { Pre s = mk(); void* r = raw(); k_substr_0(r, s.o); inv(r); same(r, s.p, N_); keep(s, N_); }
 Q q_copy()
@@ -248,7 +248,7 @@ Q q_copy_0()
     for (sz i = 0; i < w; i++) vf_assert(d[i] == s.p[i], "copy(dest,count) contents == std");
     keep(s, N_);
 }
-Q q_resize_nc() { Pre s = mk(); sz c = vf_nd_u64(); CH ch = nd_ch(); VF_KNOWN(C04_resize_grows_by_count, N_ > 0 && c > N_ && c < CAP); k_resize_nc(s.o, c, ch); post(s.o, m_resize<CH, CAP>(s.p, N_, c, ch)); }
+Q q_resize_nc() { Pre s = mk(); sz c = vf_nd_u64(); CH ch = nd_ch(); VF_KNOWN(C04_resize_grows_by_count, N_ > 0 && c > N_ && c < CAP); if (N_ > 0 && c < N_) vf_witness("resize shrinks"); if (N_ < CAP && c == CAP) vf_witness("resize grows to capacity"); k_resize_nc(s.o, c, ch); post(s.o, m_resize<CH, CAP>(s.p, N_, c, ch)); }
 Q q_resize_n() { Pre s = mk(); sz c = vf_nd_u64(); VF_KNOWN(C04_resize_grows_by_count, N_ > 0 && c > N_ && c < CAP); k_resize_n(s.o, c); post(s.o, m_resize<CH, CAP>(s.p, N_, c, CH(0))); }
 // tiny layout (CAP < 16): when the longer string is full, swap_ranges also swaps the byte that holds the size, and this->size is then read from the wrong object
 #define SWAP_BAD (CAP < 16 && (N_ == CAP || M_ == CAP) && N_ != M_)
